@@ -33,6 +33,10 @@ type Gate struct {
 	RenewFaults bool  // fault choices on CasByVersion (renewal path)
 	Calls       *[]string
 	OnCall      func(g *Gate, op string)
+	// Injected lists the faults injected so far ("Cas:reply-lost", ...)
+	Injected []string
+	// OnResult is told the outcome of every call that reached the storage
+	OnResult func(g *Gate, op string, err error)
 }
 
 func (g *Gate) pre(op string, faultable bool) (lostReq, lostRep bool) {
@@ -47,9 +51,11 @@ func (g *Gate) pre(op string, faultable bool) (lostReq, lostRep bool) {
 		switch vsched.Choose("fault:"+g.Name+"."+op, 3, false) {
 		case 1:
 			vsched.Note("%s.%s request lost", g.Name, op)
+			g.Injected = append(g.Injected, op+":request-lost")
 			return true, false
 		case 2:
 			vsched.Note("%s.%s reply lost", g.Name, op)
+			g.Injected = append(g.Injected, op+":reply-lost")
 			return false, true
 		}
 	}
@@ -118,6 +124,9 @@ func (g *Gate) CasByVersion(ctx context.Context, r kvs.Record) (kvs.Record, erro
 	}
 	res, err := g.Inner.CasByVersion(ctx, r)
 	g.log("Cas -> %v", err)
+	if g.OnResult != nil {
+		g.OnResult(g, "Cas", err)
+	}
 	if lp {
 		return kvs.Record{}, ErrInjected
 	}
